@@ -38,13 +38,13 @@ type ClntPeer struct {
 	ReadErr error
 	BadSize bool
 	OnReply func(r *Recvd)
-	// outstanding requests by tag, in issue order
-	out map[uint16][]*Sent
+	// outstanding requests in issue order (a slice, not a map: see case.go on the race detector)
+	out []*Sent
 	G   *rt.G
 }
 
 func NewClntPeer(x *Ctx, conn *rt.Conn) *ClntPeer {
-	return &ClntPeer{x: x, Conn: conn, out: map[uint16][]*Sent{}, Msize: 1 << 20}
+	return &ClntPeer{x: x, Conn: conn, Msize: 1 << 20}
 }
 
 // StartReader spawns the goroutine that reads and independently decodes
@@ -52,6 +52,7 @@ func NewClntPeer(x *Ctx, conn *rt.Conn) *ClntPeer {
 func (p *ClntPeer) StartReader() {
 	p.G = rt.Go(rt.SiteSpawn, func() {
 		rt.SetName("clntpeer-reader")
+		rt.HarnessOnly()
 		var fr Framer
 		buf := make([]byte, 1<<16)
 		for {
@@ -84,10 +85,9 @@ func (p *ClntPeer) StartReader() {
 				if err != nil {
 					p.x.Violate("wire-decode", "server wrote a frame the independent decoder rejects (dotu=%v): %v: % x", p.Dotu, err, head(f, 40))
 				} else {
-					if q := p.out[m.Tag]; len(q) > 0 {
-						r.For = q[0]
-						q[0].Reply = r
-						p.out[m.Tag] = q[1:]
+					if s := p.takeOut(m.Tag); s != nil {
+						r.For = s
+						s.Reply = r
 					}
 					if m.Type == Rversion {
 						p.Dotu = m.Version == "9P2000.u"
@@ -114,7 +114,7 @@ func (p *ClntPeer) Write(ms ...*Msg) []*Sent {
 		s := &Sent{Idx: len(p.Sent), M: m, Raw: b, Start: off + len(all), End: off + len(all) + len(b), Step: rt.Step()}
 		all = append(all, b...)
 		p.Sent = append(p.Sent, s)
-		p.out[m.Tag] = append(p.out[m.Tag], s)
+		p.out = append(p.out, s)
 		ss = append(ss, s)
 	}
 	p.Conn.Write(all)
@@ -133,10 +133,28 @@ func (p *ClntPeer) Call(m *Msg) *Recvd {
 }
 
 // Outstanding reports how many requests have no reply yet.
-func (p *ClntPeer) Outstanding() int {
-	n := 0
-	for _, q := range p.out {
-		n += len(q)
+func (p *ClntPeer) Outstanding() int { return len(p.out) }
+
+// takeOut removes and returns the oldest outstanding request with the tag.
+func (p *ClntPeer) takeOut(tag uint16) *Sent {
+	for i, s := range p.out {
+		if s.M.Tag == tag {
+			p.out = append(p.out[:i:i], p.out[i+1:]...)
+			return s
+		}
 	}
-	return n
+	return nil
 }
+
+// dropOut removes a specific outstanding request (it was cancelled).
+func (p *ClntPeer) dropOut(t *Sent) {
+	for i, s := range p.out {
+		if s == t {
+			p.out = append(p.out[:i:i], p.out[i+1:]...)
+			return
+		}
+	}
+}
+
+// putBackOut makes s the oldest outstanding request again.
+func (p *ClntPeer) putBackOut(s *Sent) { p.out = append([]*Sent{s}, p.out...) }
